@@ -30,11 +30,31 @@ fn parse_all(lines: &[String]) -> Vec<Label> {
     lines.iter().filter_map(|l| l.parse().ok()).collect()
 }
 
+/// corpus lines that select one of the voice's "never voiced" filler leaves of the log-F0 stream (mean 0, variance 1 in every window)
+fn filler_lines<'a>(engine: &Engine, corpus: &'a Corpus) -> Vec<&'a String> {
+    corpus.lines.iter().filter(|l| {
+        let Ok(lab) = l.parse::<Label>() else { return false };
+        let one = [lab];
+        let m = Models::new(&one, &engine.voices, engine.condition.get_interporation_weight());
+        m.model_stream(1).stream.iter().any(|(p, _)| p.iter().all(|mv| mv.0 == 0.0 && mv.1 == 1.0))
+    }).collect()
+}
+
 fn voicing(engine0: &Engine, rng: &mut Rng, corpus: &Corpus, evs: &mut Vec<Value>) -> Result<(), String> {
     let nl = 2 + rng.below(10);
-    let lines = corpus.utterance(rng, nl);
-    let labels = parse_all(&lines);
+    let mut lines = corpus.utterance(rng, nl);
     let mut engine = engine0.clone();
+    // now and then a label whose state selects a filler leaf (voicing weight 0.05, log-F0 mean 0): voiced only under thresholds below
+    // its weight, and then with a log F0 around zero
+    let with_filler = rng.chance(0.3);
+    if with_filler {
+        let fl = filler_lines(&engine, corpus);
+        if !fl.is_empty() {
+            let at = rng.below(lines.len() + 1);
+            lines.insert(at, (*rng.pick(&fl)).clone());
+        }
+    }
+    let labels = parse_all(&lines);
     // the voicing law holds under every condition: speed, GV weights, half tone, alpha, beta, volume ... are varied too
     // (a half tone must never turn the "no F0" marker of an unvoiced frame into a pitch)
     if rng.chance(0.7) {
@@ -45,11 +65,18 @@ fn voicing(engine0: &Engine, rng: &mut Rng, corpus: &Corpus, evs: &mut Vec<Value
     if rng.chance(0.5) {
         engine.condition.set_additional_half_tone(*rng.pick(&[-24.0, -5.5, 0.125, 3.0, 24.0]));
     }
+    if with_filler && rng.chance(0.6) {
+        engine.condition.set_additional_half_tone(0.0);
+    }
     let m = Models::new(&labels, &engine.voices, engine.condition.get_interporation_weight());
     let msd: Vec<f64> = m.model_stream(1).stream.iter().map(|(_, w)| *w).collect();
     let dur = durations(&engine, &labels);
     // thresholds: f32-representable values, several equal to a state's voicing weight or one f32 ulp around it
     let mut thr: Vec<f32> = (0..4).map(|_| (rng.below(1025) as f32) / 1024.0).collect();
+    if with_filler {
+        thr.push(0.0);
+        thr.push(0.04);
+    }
     // thresholds that no f32 holds: a hair (1e-10) below / above a state's voicing weight.  (f32 value, side): side -1 means
     // "just below that f32 value" (a weight equal to it exceeds the threshold), +1 "just above"
     let mut hair: Vec<(f32, i64)> = Vec::new();
@@ -156,12 +183,7 @@ fn halftone(engine0: &Engine, rng: &mut Rng, corpus: &Corpus, evs: &mut Vec<Valu
     // label that selects one is put into the utterance.
     if rng.chance(0.3) {
         engine.condition.set_msd_threshold(1, *rng.pick(&[0.0, 0.02, 0.04, 0.049]));
-        let with_filler: Vec<&String> = corpus.lines.iter().filter(|l| {
-            let Ok(lab) = l.parse::<Label>() else { return false };
-            let one = [lab];
-            let m = Models::new(&one, &engine.voices, engine.condition.get_interporation_weight());
-            m.model_stream(1).stream.iter().any(|(p, _)| p.iter().all(|mv| mv.0 == 0.0 && mv.1 == 1.0))
-        }).collect();
+        let with_filler = filler_lines(&engine, corpus);
         if !with_filler.is_empty() {
             let at = rng.below(lines.len() + 1);
             lines.insert(at, (*rng.pick(&with_filler)).clone());
